@@ -227,16 +227,30 @@ def cargo_build(timeout=1500):
             write_if_changed(os.path.join(hdir, "Cargo.lock"), src)
         except OSError:
             pass
-        rc, out, err = sh(["cargo", "build", "--offline", "-q"], cwd=hdir, timeout=timeout)
+        rc, out, err = sh(["cargo", "build", "--offline", "-q", "--bin", "ucg-harness"], cwd=hdir, timeout=timeout)
         if rc != 0:
             # retry once letting cargo regenerate the lock file
             try:
                 os.remove(os.path.join(hdir, "Cargo.lock"))
             except OSError:
                 pass
-            rc, out, err = sh(["cargo", "build", "--offline", "-q"], cwd=hdir, timeout=timeout)
+            rc, out, err = sh(["cargo", "build", "--offline", "-q", "--bin", "ucg-harness"], cwd=hdir, timeout=timeout)
             if rc != 0:
                 return False, out + err
+        # the positioned-AST probe (C17) uses more of ucglib's internals; when a change in /repo stops it from building, only the
+        # correspondence that needs it is reported broken - the checks themselves still run
+        probe = os.path.join(TARGET, "debug", "posprobe")
+        rc, out, err = sh(["cargo", "build", "--offline", "-q", "--bin", "posprobe"], cwd=hdir, timeout=timeout)
+        note = os.path.join(CACHE, "posprobe.err")
+        if rc != 0:
+            try:
+                os.remove(probe)
+            except OSError:
+                pass
+            with open(note, "w") as f:
+                f.write((out + err)[-3000:])
+        elif os.path.exists(note):
+            os.remove(note)
         rc, out, err = sh(["cargo", "build", "--offline", "-q", "--bin", "ucg",
                            "--manifest-path", os.path.join(REPO, "Cargo.toml")], timeout=timeout)
         if rc != 0:
